@@ -412,7 +412,11 @@ class Fn:
                     yield bb, i, s[1], s[2], s[3]
 
     def aggregates(self, adt=None, variant=None):
-        """Yield (bb, idx, dstplace, kinddict, operands, span)."""
+        """Yield (bb, idx, dstplace, kinddict, operands, span).  Besides the
+        aggregates written in this function, a call of a *constructor helper*
+        (`Error::undefined(name)`: a straight-line function whose result is
+        one aggregate of its own parameters) counts as that aggregate, built
+        at the call site from the arguments (idx = -1)."""
         for bb, i, pl, rv, sp in self.assigns():
             if rv[0] == "agg" and rv[1].get("k") == "adt":
                 k = rv[1]
@@ -421,9 +425,43 @@ class Fn:
                 if variant is not None and k["variant"] != variant:
                     continue
                 yield bb, i, pl, k, rv[2], sp
+        if getattr(self, "_is_ctor_probe", False):
+            return
+        for c in self.calls():
+            if c.is_ptr:
+                continue
+            ch = self.prog.ctor_helper(c.res)
+            if ch is None:
+                continue
+            k, argmap = ch
+            if adt is not None and k["adt"] != adt:
+                continue
+            if variant is not None and k["variant"] != variant:
+                continue
+            ops_ = []
+            for m in argmap:
+                if m is not None and m - 1 < len(c.args):
+                    ops_.append(c.args[m - 1])
+                else:
+                    ops_.append(["k", {"ty": "?"}])
+            yield c.bb, -1, (c.dst if c.dst is not None else [0, []]), k, ops_, c.span
 
     # ---- canonical access paths ----------------------------------------
     def canon(self, place, see_through=None, _depth=0):
+        cp = self._canon_raw(place, see_through, _depth)
+        # a path that ends up rooted at a multi-definition local may still be
+        # resolvable through that local's per-variant aggregates
+        for _ in range(3):
+            if cp and cp[0][0] == "local" and len(cp) >= 3 and _depth < 30:
+                nxt = self._canon_local(cp[0][1], list(cp[1:]), see_through, _depth + 1)
+                if nxt == cp:
+                    break
+                cp = nxt
+            else:
+                break
+        return cp
+
+    def _canon_raw(self, place, see_through=None, _depth=0):
         """Canonical access path of a place: (root, proj, proj, ...).
         root is ('arg', n) | ('local', n) | ('call', bb) | ('const', v) |
         ('agg', bb, idx).  References and dereferences cancel; copies, moves
@@ -458,6 +496,19 @@ class Fn:
             return (("arg", local),) + tuple(projs)
         sd = self.single_def(local)
         if sd is None:
+            # `(x as V).i` of a local assigned one aggregate per variant
+            # (`if c { Some(a) } else { None }`): the payload is the operand
+            # of the only definition that builds variant V
+            if len(projs) >= 2 and projs[0] != "*" and projs[0][0] == "d" \
+                    and projs[1] != "*" and projs[1][0] == "f":
+                ds = self.defs().get(local, [])
+                if ds and all(k == "rv" and p[0] == "agg" for (_, _, k, p) in ds) \
+                        and not self.partial_defs().get(local):
+                    hits = [p for (_, _, k, p) in ds if p[1].get("variant") == projs[0][1]]
+                    i = projs[1][1]
+                    if len(hits) == 1 and i < len(hits[0][2]) and is_place_operand(hits[0][2][i]):
+                        inner = self.canon(op_place(hits[0][2][i]), see, depth + 1)
+                        return self._append(inner, projs[2:])
             return (("local", local),) + tuple(projs)
         bb, idx, kind, payload = sd
         if kind == "call":
@@ -637,6 +688,65 @@ class Program:
 
     def fn(self, path):
         return self.fns.get(path)
+
+    def ctor_helper(self, path):
+        """(aggregate kind, [param index feeding each field or None]) when
+        `path` is a constructor helper: a hand-written, straight-line,
+        non-closure function whose result is exactly one crate-enum/struct
+        aggregate (possibly boxed/`Err`-wrapped by the caller, not here) whose
+        fields are its parameters, passed through `to_string`/`clone`/`Box::new`
+        /`into` at most."""
+        memo = self.__dict__.setdefault("_ctor_helpers", {})
+        if path in memo:
+            return memo[path]
+        memo[path] = None
+        g = self.fns.get(path or "")
+        if g is None or not g.full or g.is_closure or g.generated or g.from_expansion or g.impl_trait:
+            return None
+        if len(g.blocks) > 14 or g.natural_loops():
+            return None
+        if any(g.term(b)["k"] == "switch" for b in g.reachable()):
+            return None
+        g._is_ctor_probe = True
+        try:
+            aggs = [(bb, i, pl, kd, ao) for bb, i, pl, kd, ao, sp in g.aggregates()
+                    if not kd["adt"].startswith(("std::", "core::", "alloc::"))]
+        finally:
+            g._is_ctor_probe = False
+        rets = g.return_locals()
+        outer = [a for a in aggs if a[2][0] in rets and not a[2][1]]
+        if len(outer) != 1:
+            return None
+        bb, i, pl, kd, ao = outer[0]
+        if kd["adt"] != "eval::error::Error":
+            return None     # (only error constructors are virtualised: value
+                            # constructors are anchors of their own)
+        # nested crate aggregates (AtLoc{source: Box::new(Inner{..})}) are not
+        # plain constructors
+        if len(aggs) != 1:
+            return None
+        argmap = []
+        for o in ao:
+            m = None
+            if is_place_operand(o):
+                cp = g.canon_op(o)
+                for _ in range(4):
+                    if cp[0][0] == "call":
+                        cc = g.call_at(cp[0][1])
+                        if cc is None or not cc.args or not is_place_operand(cc.args[0]):
+                            break
+                        if (cc.res or "") in self.fns and self.fns[cc.res].full \
+                                and not self.fns[cc.res].from_expansion:
+                            break
+                        cp = g.canon_op(cc.args[0])
+                    else:
+                        break
+                cpn = [p for p in cp if p not in ("&", "*")]
+                if cpn and cpn[0][0] == "arg" and len(cpn) == 1:
+                    m = cpn[0][1]
+            argmap.append(m)
+        memo[path] = (kd, argmap)
+        return memo[path]
 
     def full_fns(self, generated=None):
         for f in self.fns.values():
@@ -901,6 +1011,25 @@ class VariantFlow:
         return VariantFlow._flag_transfer_of(self.fn, self.flags, bb, env)
 
     @staticmethod
+    def _variant_locals_of(fn):
+        """Enum-typed locals every definition of which is an aggregate of a
+        known variant (`let k = if c { Some(x) } else { None }`, the result
+        slot of an inlined accessor): their variant is tracked like a flag."""
+        out = set()
+        for l, ds in fn.defs().items():
+            if l <= fn.arg_count or not ds or fn.partial_defs().get(l):
+                continue
+            ok = True
+            for (bb, idx, kind, payload) in ds:
+                if kind != "rv" or payload[0] != "agg" or payload[1].get("k") != "adt" \
+                        or not payload[1].get("is_enum"):
+                    ok = False
+                    break
+            if ok:
+                out.add(l)
+        return out
+
+    @staticmethod
     def _flag_locals_of(fn):
         cands = {i for i, t in enumerate(fn.locals) if t == "bool" and i > fn.arg_count}
         changed = True
@@ -934,7 +1063,7 @@ class VariantFlow:
                 if not ok:
                     cands.discard(l)
                     changed = True
-        return cands
+        return cands | VariantFlow._variant_locals_of(fn)
 
     @staticmethod
     def _flag_transfer_of(fn, flags, bb, env):
@@ -946,6 +1075,9 @@ class VariantFlow:
             dst = s[1][0]
             rv = s[2]
             val = None
+            if rv[0] == "agg":
+                env[dst] = rv[1].get("variant")
+                continue
             if rv[0] == "use":
                 if is_place_operand(rv[1]):
                     val = env.get(op_place(rv[1])[0])
@@ -954,7 +1086,7 @@ class VariantFlow:
             elif rv[0] == "un":
                 v = env.get(op_place(rv[2])[0])
                 val = (not v) if v is not None else None
-            if isinstance(val, bool):
+            if isinstance(val, (bool, str)):
                 env[dst] = val
             else:
                 env.pop(dst, None)
@@ -1012,6 +1144,17 @@ class VariantFlow:
                         outs.append((tgt, frozenset(x for x in xs if x[0][comp] == n)))
                     rest = set(v for v in self.doms[comp] if v not in listed)
                     outs.append((info["otherwise"], frozenset(x for x in xs if x[0][comp] in rest)))
+                elif len(cp) == 1 and cp[0][0] == "local" and cp[0][1] in self.flags:
+                    # a local whose variant was fixed where it was assigned
+                    vl = cp[0][1]
+                    cases = dict(info["cases"])
+                    for x in xs:
+                        val = dict(x[1]).get(vl)
+                        if isinstance(val, str):
+                            outs.append((cases.get(val, info["otherwise"]), frozenset([x])))
+                        else:
+                            for s in fn.succs(bb):
+                                outs.append((s, frozenset([x])))
                 else:
                     outs = [(s, xs) for s in fn.succs(bb)]
             elif info and info["kind"] == "bool" and is_place_operand(info["on"]) \
